@@ -164,6 +164,9 @@ def array_specs(
     stored = draw(sector_subset(secs, mode=sparsity))
     if dtype is None:
         dtype = draw(st.sampled_from(["float64", "float64", "complex128"]))
+    elif dtype == "any":
+        dtype = draw(st.sampled_from(
+            ["float64", "float64", "complex128", "mixed"]))
     if data is None:
         data = "int"
     if dyn is None:
@@ -223,8 +226,14 @@ def make_blocks(spec):
     kind = spec.get("data", "int")
     blocks = {}
     tag = 1
-    for sec in spec["sectors"]:
+    mixed = dtype == "mixed"
+    for nblk, sec in enumerate(spec["sectors"]):
         shape = tuple(ix["cm"][c] for c, ix in zip(sec, spec["idxs"]))
+        if mixed:
+            # blocks of differing dtype, as produced by real + complex
+            # addition: the first block real, later ones drawn
+            dtype = "float64" if nblk == 0 or rng.integers(0, 2) else \
+                "complex128"
         if kind == "int":
             b = rng.integers(-4, 5, size=shape).astype("float64")
             if "complex" in dtype:
@@ -302,6 +311,8 @@ def spec_summary(spec):
         out.append("pending-signs")
     if "complex" in spec["dtype"]:
         out.append("complex")
+    if spec["dtype"] == "mixed":
+        out.append("mixed-dtype")
     if spec["dyn"]:
         out.append("dynamic-class")
     return out
